@@ -337,6 +337,33 @@ void vf_harness(void) {
 from units.C10 import sock_read as _sr9, sock_read_small as _srs9
 UNITS += [capitalized_unit, _sr9, _srs9]
 
+# ---- HttpServer::serveFile builds the local file name from request.path(), which HttpRequest::read already percent-decoded and cleaned of "..":
+# decoding it AGAIN would turn "%252e%252e" into ".." behind the filter
+serve_file = Unit(
+    'HttpServer_serveFile_path', 'C09',
+    cuts=[Cut('sf', 'src/HttpServer.cpp', r'void HttpServer::serveFile\([^)]*\)\s*\{\s*if \(request\.method\(\) == "GET"\)\s*\{\s*(String path = [^;]*;)', kind='expr',
+              rules=[(r'String path =', 'TV path =', 1), (r'request\.path\(\)', 'REQ_PATH()', None), (r'Url::decode\(', 'T_DECODE(', None)])],
+    text=PRE + r'''
+typedef struct TV { int decodes; } TV;
+int g_bad;
+static TV REQ_PATH(void) { TV t = { 1 }; return t; }          /* request.path(): decoded once and filtered (units HttpRequest_target_split / HttpRequest_path_dotdot) */
+static TV T_DECODE(TV t) { if (t.decodes >= 1) g_bad = 1; __CPROVER_assert(t.decodes == 0, "the request path is percent-decoded exactly once, BEFORE the \"..\" filter"); t.decodes++; return t; }
+void serveFile_path(void)
+__CPROVER_requires(g_bad == 0)
+__CPROVER_ensures(!g_bad)
+__CPROVER_assigns(g_bad)
+{
+  @@sf@@
+  (void)path;
+}
+void vf_harness(void) { serveFile_path(); VF_CANARY(); }
+''',
+    entry='serveFile_path',
+    desc='HttpServer::serveFile: the local path is built from request.path() as it is (decoded once, filtered); it is not decoded a second time',
+    functions=['HttpServer::serveFile (path)'],
+)
+UNITS += [serve_file]
+
 # replay for the receiving-loop units (shared with C10): the C10 driver's battery on the real HttpRequest reader
 for _u in (read_body_loop, read_body_outer, read_headers):
     if not _u.replay:
